@@ -1,1 +1,1 @@
-from . import gates  # noqa
+from . import gates, removes  # noqa
